@@ -17,14 +17,19 @@ RULE = ("definitions with rectangular shapes forced (readings != states, calibra
         "SI-SCALED (fixed in the code): models in SI units whose true partial derivatives lie between 1e-13 and 1e-8 (time of flight "
         "2/c, Doppler v/c, picofarads, nanosecond steps) next to O(1) entries, every entry compared RELATIVE to its own size; "
         "EDITED-MODEL (fixed in the code): one ui.Model object compiled, its state_model edited in place (item assignment, whole-dict "
-        "replacement, edit and edit back), compiled again: each new filter answers for the model as it is when that filter is built")
+        "replacement, edit and edit back), compiled again: each new filter answers for the model as it is when that filter is built; "
+        "NUMBERED-NAMES (fixed in the code): states, controls, calibration values and readings whose names carry numbers of different "
+        "digit counts (x2 / x10, u2 / u10, k3 / k12, eleven states x0..x10, mixed z9 / z10a / z010), where plain string order and "
+        "numeric order disagree; non-symmetric nonlinear rational models, values handed over by name")
 NOTE = ["oracle: sympy diff by name (independent of the Lean Expr.diff the model uses), exact Fractions",
         "theorem entry_is_partial speaks about the model's symbolic derivative Expr.diff; that Expr.diff is the analytic derivative is "
         "validated against sympy on every instance (see Proofs/Diff if present), binary64 rounding under 1e-9 relative tolerance",
         "SI-scaled stream: oracle = exact sympy derivative (float coefficients taken as the rationals they are); an entry passes when "
         "|got - want| <= 1e-9 |want|, a structurally zero entry when |got| <= 1e-9 x the smallest non-zero entry of that matrix",
         "edited-model stream: oracle = exact sympy derivative of the definition the ui.Model object held at the moment of the "
-        "compile_ekf call (the harness keeps its own copy of every version); process, control and sensor Jacobians of each filter"]
+        "compile_ekf call (the harness keeps its own copy of every version); process, control and sensor Jacobians of each filter",
+        "numbered-names stream: oracle = exact sympy derivative, rows and columns in the library's name order = sorted by the symbol's "
+        "name as a plain string ('x10' before 'x2'); every filter is given its State / Control BY NAME, so the point is unambiguous"]
 PARTIAL = ["transcendental definitions: the model's derivative is evaluated in Lean Float (libm) and compared within 1e-6, no exact value"]
 
 
@@ -171,6 +176,7 @@ def run(ctx):
                 ctx.broke(f"correspondence:jacobians ({which}: Lean model vs implementation)", {"model": model, "impl": got.tolist()}, info)
     si_scaled_stream(ctx)
     edited_model_stream(ctx)
+    numbered_names_stream(ctx)
     return core.finish(ctx, audit, NOTE, RULE, PARTIAL)
 
 
@@ -332,6 +338,60 @@ def edited_model_stream(ctx):
                 ctx.count("edited_model_compiles")
                 for pt in pts:
                     _check_all_jacobians(ctx, ekf, d, pt, "edited-model", {"history": hname, "step": step, "how": how, "cse": cse})
+
+
+def _numbered_definitions():
+    S = sympy.Symbol
+    R = sympy.Rational
+    dt = S("dt")
+    # 1. two states, two controls, two calibration values, readings: in each group the numbers have different digit counts
+    x2, x10, u2, u10, k3, k12 = S("x2"), S("x10"), S("u2"), S("u10"), S("k3"), S("k12")
+    pair = gen.Definition(dt, [x2, x10], [u2, u10], [k3, k12],
+                          {x2: x2 + dt * x10 * x10 + dt * u2 * u2 * R(1, 2) + k3 * u10,
+                           x10: x10 * (1 - x2 * R(1, 4)) + 3 * dt * u10 * x2 + k12 * x10},
+                          {"s": {"r2": x2 * x10 + k12, "r10": x10 + x2 * x2 * k3, "r1": x10 * 3 - x2},
+                           "t": {"only": x2 * x2 * x10}})
+    # 2. eleven states x0..x10 (a chain, each one driven by the next and by its own square), one control
+    xs = [S(f"x{i}") for i in range(11)]
+    g = S("g")
+    chain = {xs[i]: xs[i] + dt * (i + 1) * xs[(i + 1) % 11] + xs[i] * xs[i] * R(1, 8 + i) for i in range(11)}
+    chain[xs[10]] = chain[xs[10]] + dt * g * xs[2]
+    eleven = gen.Definition(dt, list(xs), [g], [], chain,
+                            {"lidar": {"near": xs[2] * xs[10], "far": xs[10] + xs[1] * 2, "mid": xs[9] * xs[9] - xs[0]},
+                             "tail": {"t": xs[10] * xs[10] * R(1, 2) + xs[3]}})
+    # 3. numbers inside and at the end of names, leading zeros, controls only differing in digit count; no calibration
+    z9, z10a, z010, a1b20, a1b3 = S("z9"), S("z10a"), S("z010"), S("a1b20"), S("a1b3")
+    w100, w20, w3 = S("w100"), S("w20"), S("w3")
+    mixed = gen.Definition(dt, [z9, z10a, z010, a1b20, a1b3], [w100, w20, w3], [],
+                           {z9: z9 + dt * z10a * w3, z10a: z10a + dt * z010 * z010 + w20 * R(1, 2),
+                            z010: z010 * (1 + dt * a1b20) + w100 * w3, a1b20: a1b20 + dt * a1b3 * z9,
+                            a1b3: a1b3 - dt * a1b20 * a1b20 * R(1, 3) + w20 * w100 * dt},
+                           {"cam": {"p10": z9 * a1b3, "p9": z10a - z010 * a1b20},
+                            "imu": {"q": z010 * z010, "q2": a1b20 * z9 + a1b3, "q11": z10a * 5}})
+    return [("pair", pair), ("eleven", eleven), ("mixed", mixed)]
+
+
+def numbered_names_stream(ctx):
+    """names that carry numbers of different digit counts: the layout is the library's NAME order (plain string order of the
+    symbol names), and every entry is the partial derivative of the row's output with respect to the column's variable"""
+    for name, d in _numbered_definitions():
+        Ls, Lc, Lk = eh.names_of(d)
+        cal = {n: F(2 * i + 3, 4) for i, n in enumerate(Lk)}
+        process = {s.name: F(k_ + 1, 4) for k_, s in enumerate(d.control)}
+        sensor = {key: {r: F(j + 1, 8) for j, r in enumerate(sorted(rd))} for key, rd in d.sensors.items()}
+        # every coordinate has its own value (no two states / controls share one, so a permuted point is a different point)
+        pts = [{"dt": dtv, "cal": cal, "state": {n: F(b * (2 * i + 1), 4) + i * i for i, n in enumerate(Ls)},
+                "control": {n: F(-b * (3 * i + 2), 8) - i for i, n in enumerate(Lc)}} for dtv, b in ((F(1, 16), 1), (F(1, 10), -3))]
+        for cse in (False, True):
+            try:
+                ekf = eh.compile_ekf(d, process, sensor, cal, None, cse=cse)
+            except Exception as e:
+                ctx.fail(f"compile-ekf-raises:{fk.exc_kind(e)}:numbered-names", f"compile_ekf refuses a valid definition: {e!r}"[:300],
+                         {"def": d.describe(), "stream": "numbered-names", "model": name})
+                continue
+            ctx.count("numbered_names_filters")
+            for pt in pts:
+                _check_all_jacobians(ctx, ekf, d, pt, "numbered-names", {"model": name, "cse": cse})
 
 
 def replay(ctx, data):
